@@ -36,6 +36,8 @@ def same(a, b):
             return "ne" if "ne" in rs else ("close" if "close" in rs else "eq")
         if bool(a == b):
             return "eq"
+        if isinstance(a, float) and isinstance(b, float) and math.isnan(a) and math.isnan(b):
+            return "eq"      # numpy floats: 0 // 0.0 is nan (no ZeroDivisionError) on both sides
         if isinstance(a, (int, float)) and isinstance(b, (int, float)):
             if math.isclose(a, b, rel_tol=1e-9, abs_tol=1e-9):
                 return "close"
